@@ -579,7 +579,9 @@ impl<'a> Model<'a> {
     /// what a marker descriptor renders: `<id|parts>`; a re-entrant one (id >= REENTRANT_DESC)
     /// additionally describes the inner program `inner_q` from inside the descriptor
     fn mark(&self, id: usize, parts: String) -> String {
-        if id >= crate::case::REENTRANT_DESC {
+        if id >= crate::case::EMPTY_DESC {
+            String::new()
+        } else if id >= crate::case::REENTRANT_DESC {
             let inner = self.describe(&rf("inner_q"));
             format!("<{}|{}|{}>", id, parts, inner)
         } else {
